@@ -248,7 +248,7 @@ impl<'a> Gen<'a> {
         }
     }
 
-    fn fin_act(&mut self, depth: usize) -> Act {
+    pub fn fin_act(&mut self, depth: usize) -> Act {
         let resurrect = self.rng.chance(self.p.resurrect_pct as u64, 100);
         if resurrect {
             match self.rng.idx(if self.p.weak_neutral { 4 } else { 9 }) {
@@ -323,7 +323,7 @@ impl<'a> Gen<'a> {
         s
     }
 
-    fn action_spec(&mut self) -> ActionSpec {
+    pub fn action_spec(&mut self) -> ActionSpec {
         let cap = if self.rng.chance(1, 3) { Some(self.src()) } else { None };
         let wcap = if self.rng.chance(1, 2) { Some(self.wloc()) } else { None };
         let mut script = vec![];
@@ -461,6 +461,76 @@ impl<'a> Gen<'a> {
         }
     }
 
+    /// Appends one top-level operation (or one motif: several operations) drawn with the profile's weights.
+    pub fn top_op(&mut self, ops: &mut Vec<Act>) {
+        let p = self.p;
+        let weights = [
+            p.w_new, p.w_cyclic, p.w_clone, p.w_take, p.w_drop, p.w_set, p.w_clear, p.w_mark, p.w_weak, p.w_unwrap, p.w_finagain,
+            p.w_collect, p.w_quiet, p.w_cleaner, p.w_config, p.w_dropglobal, p.w_motif,
+        ];
+        match self.rng.weighted(&weights) {
+            0 => {
+                let r = self.reg();
+                ops.push(Act::New { dst: Dst::R(r), spec: Box::new(self.spec(0)) });
+                if !p.weak_neutral && self.rng.chance(1, 4) {
+                    // self-weak in slot 0: what finalizers use to resurrect themselves
+                    ops.push(Act::Downgrade { src: Src::R(r), dst: WLoc::Of(Own::R(r), 0) });
+                }
+            }
+            1 => {
+                let mut script = vec![];
+                for _ in 0..self.rng.idx(3) {
+                    script.push(match self.rng.idx(6) {
+                        0 => Act::WClone { src: WLoc::Cyc, dst: WLoc::WR(self.rng.idx(NWR) as u8) },
+                        1 => Act::Upgrade { src: WLoc::Cyc, dst: Dst::Discard },
+                        2 => Act::Collect,
+                        3 => Act::New { dst: Dst::G(self.glob()), spec: Box::new(Spec::default()) },
+                        4 => Act::Drop { dst: Dst::R(self.reg()) },
+                        _ => Act::Query,
+                    });
+                }
+                ops.push(Act::NewCyclic { dst: Dst::R(self.reg()), spec: Box::new(self.spec(0)), script, keep: self.rng.idx(4) as u8 });
+            }
+            2 => ops.push(Act::Clone { src: self.src(), dst: self.dst() }),
+            3 => {
+                let a = if self.rng.chance(1, 2) {
+                    Act::Take { src: self.src(), dst: self.dst() }
+                } else {
+                    Act::Take { src: self.src(), dst: Dst::Slot(self.own(), self.rng.chance(p.w_set_hidden_pct as u64, 100), self.tslot()) }
+                };
+                ops.push(a);
+            }
+            4 => ops.push(Act::Drop { dst: Dst::R(self.reg()) }),
+            5 => {
+                let hid = self.rng.chance(p.w_set_hidden_pct as u64, 100);
+                let i = if hid { self.rng.idx(NH) as u8 } else { self.tslot() };
+                ops.push(Act::Clone { src: self.src(), dst: Dst::Slot(self.own(), hid, i) });
+            }
+            6 => {
+                let hid = self.rng.chance(p.w_set_hidden_pct as u64, 100);
+                let i = if hid { self.rng.idx(NH) as u8 } else { self.tslot() };
+                ops.push(Act::Drop { dst: Dst::Slot(self.own(), hid, i) });
+            }
+            7 => ops.push(Act::MarkAlive { src: self.src() }),
+            8 => ops.push(self.weak_op()),
+            9 => ops.push(Act::TryUnwrap { reg: if self.rng.chance(1, 6) { Dst::G(self.glob()) } else { Dst::R(self.reg()) } }),
+            10 => ops.push(Act::FinalizeAgain { reg: if self.rng.chance(1, 6) { Dst::G(self.glob()) } else { Dst::R(self.reg()) } }),
+            11 => ops.push(Act::Collect),
+            12 => ops.push(Act::CollectQuiet),
+            13 => {
+                let a = match self.rng.idx(6) {
+                    0 | 1 | 2 => Act::Register { own: self.own(), action: Box::new(self.action_spec()), dst: self.rng.idx(NC) as u8 },
+                    3 | 4 => Act::Clean { c: self.rng.idx(NC) as u8 },
+                    _ => Act::CDrop { c: self.rng.idx(NC) as u8 },
+                };
+                ops.push(a);
+            }
+            14 => ops.push(Act::Config { auto: self.rng.chance(3, 4), percent: self.rng.idx(PERCENTS.len()) as u8, buffered: self.rng.idx(BUFFERED.len()) as u8 }),
+            15 => ops.push(Act::Drop { dst: Dst::G(self.glob()) }),
+            _ => self.motif(ops),
+        }
+    }
+
     pub fn history(&mut self) -> History {
         let p = self.p;
         let n = p.min_ops + self.rng.idx(p.max_ops - p.min_ops + 1);
@@ -468,72 +538,8 @@ impl<'a> Gen<'a> {
         if self.rng.chance(p.auto_collect_pct as u64, 100) {
             ops.push(Act::Config { auto: true, percent: self.rng.idx(PERCENTS.len()) as u8, buffered: self.rng.idx(BUFFERED.len()) as u8 });
         }
-        let weights = [
-            p.w_new, p.w_cyclic, p.w_clone, p.w_take, p.w_drop, p.w_set, p.w_clear, p.w_mark, p.w_weak, p.w_unwrap, p.w_finagain,
-            p.w_collect, p.w_quiet, p.w_cleaner, p.w_config, p.w_dropglobal, p.w_motif,
-        ];
         while ops.len() < n {
-            match self.rng.weighted(&weights) {
-                0 => {
-                    let r = self.reg();
-                    ops.push(Act::New { dst: Dst::R(r), spec: Box::new(self.spec(0)) });
-                    if !p.weak_neutral && self.rng.chance(1, 4) {
-                        // self-weak in slot 0: what finalizers use to resurrect themselves
-                        ops.push(Act::Downgrade { src: Src::R(r), dst: WLoc::Of(Own::R(r), 0) });
-                    }
-                }
-                1 => {
-                    let mut script = vec![];
-                    for _ in 0..self.rng.idx(3) {
-                        script.push(match self.rng.idx(6) {
-                            0 => Act::WClone { src: WLoc::Cyc, dst: WLoc::WR(self.rng.idx(NWR) as u8) },
-                            1 => Act::Upgrade { src: WLoc::Cyc, dst: Dst::Discard },
-                            2 => Act::Collect,
-                            3 => Act::New { dst: Dst::G(self.glob()), spec: Box::new(Spec::default()) },
-                            4 => Act::Drop { dst: Dst::R(self.reg()) },
-                            _ => Act::Query,
-                        });
-                    }
-                    ops.push(Act::NewCyclic { dst: Dst::R(self.reg()), spec: Box::new(self.spec(0)), script, keep: self.rng.idx(4) as u8 });
-                }
-                2 => ops.push(Act::Clone { src: self.src(), dst: self.dst() }),
-                3 => {
-                    let a = if self.rng.chance(1, 2) {
-                        Act::Take { src: self.src(), dst: self.dst() }
-                    } else {
-                        Act::Take { src: self.src(), dst: Dst::Slot(self.own(), self.rng.chance(p.w_set_hidden_pct as u64, 100), self.tslot()) }
-                    };
-                    ops.push(a);
-                }
-                4 => ops.push(Act::Drop { dst: Dst::R(self.reg()) }),
-                5 => {
-                    let hid = self.rng.chance(p.w_set_hidden_pct as u64, 100);
-                    let i = if hid { self.rng.idx(NH) as u8 } else { self.tslot() };
-                    ops.push(Act::Clone { src: self.src(), dst: Dst::Slot(self.own(), hid, i) });
-                }
-                6 => {
-                    let hid = self.rng.chance(p.w_set_hidden_pct as u64, 100);
-                    let i = if hid { self.rng.idx(NH) as u8 } else { self.tslot() };
-                    ops.push(Act::Drop { dst: Dst::Slot(self.own(), hid, i) });
-                }
-                7 => ops.push(Act::MarkAlive { src: self.src() }),
-                8 => ops.push(self.weak_op()),
-                9 => ops.push(Act::TryUnwrap { reg: if self.rng.chance(1, 6) { Dst::G(self.glob()) } else { Dst::R(self.reg()) } }),
-                10 => ops.push(Act::FinalizeAgain { reg: if self.rng.chance(1, 6) { Dst::G(self.glob()) } else { Dst::R(self.reg()) } }),
-                11 => ops.push(Act::Collect),
-                12 => ops.push(Act::CollectQuiet),
-                13 => {
-                    let a = match self.rng.idx(6) {
-                        0 | 1 | 2 => Act::Register { own: self.own(), action: Box::new(self.action_spec()), dst: self.rng.idx(NC) as u8 },
-                        3 | 4 => Act::Clean { c: self.rng.idx(NC) as u8 },
-                        _ => Act::CDrop { c: self.rng.idx(NC) as u8 },
-                    };
-                    ops.push(a);
-                }
-                14 => ops.push(Act::Config { auto: self.rng.chance(3, 4), percent: self.rng.idx(PERCENTS.len()) as u8, buffered: self.rng.idx(BUFFERED.len()) as u8 }),
-                15 => ops.push(Act::Drop { dst: Dst::G(self.glob()) }),
-                _ => self.motif(&mut ops),
-            }
+            self.top_op(&mut ops);
         }
         History { ops, label: String::new() }
     }
